@@ -12,12 +12,18 @@ from .geosim import viol, innermost_site
 NAMES = ["a", "b", "c", "d", "e", "g"]
 
 
-def make_fun(args, n_defaults):
+def default_of(case, a):
+    """Declared default of argument a: a tag, or one of the values a truthiness / 'is None' test confuses with
+    'no default' (None, 0, False, '')."""
+    return (case.get("dvals") or {}).get(a, "dflt_" + a)
+
+
+def make_fun(args, n_defaults, case=None):
     """def f(a, b, c=..): returns the dict of what it received (tagged)."""
     sig = []
     for i, a in enumerate(args):
         if i >= len(args) - n_defaults:
-            sig.append("%s=%r" % (a, "dflt_" + a))
+            sig.append("%s=%r" % (a, default_of(case or {}, a)))
         else:
             sig.append(a)
     src = "def f(%s):\n    return {%s}\n" % (", ".join(sig), ", ".join("%r: %s" % (a, a) for a in args))
@@ -59,9 +65,9 @@ def run_c13(case):
     from torchphysics.utils.user_fun import UserFunction, DomainUserFunction
     out, stats = [], {}
     args = case["args"]
-    f = make_fun(args, case["n_defaults"])
+    f = make_fun(args, case["n_defaults"], case)
     code_before = (f.__code__.co_code, f.__defaults__)
-    ref0 = RefHolder(args, {a: "dflt_" + a for a in args[len(args) - case["n_defaults"]:]})
+    ref0 = RefHolder(args, {a: default_of(case, a) for a in args[len(args) - case["n_defaults"]:]})
     cls = DomainUserFunction if case.get("domain_variant") else UserFunction
     holders = [(cls(f), ref0, False)]          # (real, reference, shares_dict_with_another_holder)
     log = []
